@@ -1,6 +1,7 @@
 package main
 
 import (
+	"os"
 	"fmt"
 	"go/token"
 	"go/types"
@@ -347,6 +348,9 @@ func (e *Engine) enterLoopHeader(st *State, fr *Frame, h *ssa.BasicBlock, ord in
 		st.heap[name] = cur
 	}
 	ghostW := e.loopMayWriteGhost(fr.fn, h, fx)
+	if os.Getenv("GOVC_DEBUGGHOST") != "" {
+		fmt.Printf("loop head b%d of %s: ghost havoc=%v (dyn=%v all=%v)\n", h.Index, fr.fn.Name(), ghostW, fx.dyn, fx.all)
+	}
 	for n, id := range st.globals {
 		// ghost variables are advanced by hooks inside the loop
 		if !ghostW {
@@ -1000,29 +1004,74 @@ func (e *Engine) loopMayWriteGhost(fn *ssa.Function, h *ssa.BasicBlock, fx *loop
 	if fx.dyn || fx.all {
 		return true
 	}
-	hasCallHooks := false
-	for name := range fn.Pkg.Members {
-		if strings.HasPrefix(name, "vc_hook_call_") || strings.HasPrefix(name, "vc_hook_callback_") || strings.HasPrefix(name, "vc_hook_chan_") ||
-			strings.HasPrefix(name, "vc_hook_iface_") || strings.HasPrefix(name, "vc_hook_go_") || strings.HasSuffix(name, "_modifies_ghost") {
-			hasCallHooks = true
-			break
+	// a call in the body can run a hook only if a hook or a ghost-modifying contract is declared for that callee
+	// (followed through callees that are inlined); channel operations, goroutines and interface calls only if a hook
+	// of that kind exists in the package at all
+	has := func(prefix string) bool {
+		for name := range fn.Pkg.Members {
+			if strings.HasPrefix(name, prefix) {
+				return true
+			}
 		}
-	}
-	if !hasCallHooks {
 		return false
 	}
-	// conservative: any call or channel operation in the body may run such a hook
-	for b := range e.loopBody[h] {
-		for _, ins := range b.Instrs {
-			switch ins.(type) {
-			case *ssa.Call, *ssa.Go, *ssa.Defer, *ssa.Send, *ssa.Select:
-				return true
-			case *ssa.UnOp:
-				if u := ins.(*ssa.UnOp); u.Op == token.ARROW {
-					return true
+	chanHooks, goHooks, ifaceHooks := has("vc_hook_chan_"), has("vc_hook_go_"), has("vc_hook_iface_")
+	seen := map[*ssa.Function]bool{}
+	var calleeMay func(f *ssa.Function, depth int) bool
+	var blocksMay func(blocks []*ssa.BasicBlock, depth int) bool
+	calleeMay = func(f *ssa.Function, depth int) bool {
+		if f == nil || f.Pkg == nil {
+			return false
+		}
+		stem2 := contractStem(f)
+		if f.Pkg.Func("vc_hook_call_"+stem2) != nil || f.Pkg.Func("vc_"+stem2+"_modifies_ghost") != nil {
+			return true
+		}
+		if e.pkgs[f.Pkg.Pkg.Path()] == nil || f.Blocks == nil || seen[f] || depth > 4 {
+			return false
+		}
+		if e.findContract(f, "requires") != nil || len(e.findContracts(f, "ensures")) > 0 {
+			return false // used through its contract, which declares no ghost effect
+		}
+		seen[f] = true
+		return blocksMay(f.Blocks, depth+1)
+	}
+	blocksMay = func(blocks []*ssa.BasicBlock, depth int) bool {
+		for _, b := range blocks {
+			for _, ins := range b.Instrs {
+				switch x := ins.(type) {
+				case *ssa.Call:
+					if x.Call.IsInvoke() {
+						if ifaceHooks {
+							return true
+						}
+					} else if calleeMay(x.Call.StaticCallee(), depth) {
+						return true
+					}
+				case *ssa.Defer:
+					if calleeMay(x.Call.StaticCallee(), depth) {
+						return true
+					}
+				case *ssa.Go:
+					if goHooks {
+						return true
+					}
+				case *ssa.Send, *ssa.Select:
+					if chanHooks {
+						return true
+					}
+				case *ssa.UnOp:
+					if x.Op == token.ARROW && chanHooks {
+						return true
+					}
 				}
 			}
 		}
+		return false
 	}
-	return false
+	var body []*ssa.BasicBlock
+	for b := range e.loopBody[h] {
+		body = append(body, b)
+	}
+	return blocksMay(body, 0)
 }
